@@ -149,7 +149,57 @@ CHECKS = {
         note='Trusted: mc/ref/nsstack.py. Single-map modes that cannot denote a no-namespace element under a default namespace and unprefixed-attribute keys under a default namespace are '
              'counted, not judged. Known findings: level-1 declarations loaded as root declarations on encode, unprefixed attributes / no-namespace children admitted by wildcards '
              'encoded into the default namespace.'),
+    'C06': dict(
+        technique='exhaustive enumeration of small trees x fault placements x flavours x lazy depth x thin mode; differential against the eager run on the same schema object',
+        text='Model checking by bounded exhaustive enumeration: every ordered tree with height <= 3 (thorough 4), fan-out <= 3 and a node bound over a recursive schema in five '
+             'flavours (no identity constraints, ID/IDREF across chunks, root key, nested key+keyref, namespace redeclarations at every level), each node valid or carrying one fault '
+             '(<= 2 per document), plus 90 corpus documents; lazy depth 1 is judged (the claimed depth), depths 2-3 and thin/non-thin are run under the same oracle and counted. Verdict, '
+             'error sequence (type, reason, path), decoded data (small documents and corpus) and the resource iteration stream (tag, text, attributes, in-scope namespaces; iter, iter_depth, '
+             'iterfind, get_namespaces, get_nsmap) are compared with the fully loaded run.',
+        design_ref='DESIGN.md section 2, C06',
+        note='Trusted: the stream reference of mc/gen/docs_c06.py. lazy iter() order is compared as a multiset (the suite asserts it differs). Known findings: lazy validation validates the '
+             'root last (error order), duplicate ID blamed on the root, lazy decode second pass loses chunk xmlns / identity checks above the chunk, to_objects(lazy) AssertionError.'),
+    'C20': dict(
+        technique='exhaustive enumeration of every element path form of every valid instance of small schemas; governing declaration observed through extra_validator; partial vs whole-document differential',
+        text='Model checking by bounded exhaustive enumeration: 23 generated schemas (same local name with different types under different parents, refs, substitution members, named types, '
+             'nesting, choice, attributes, identity, unqualified locals; with and without target namespace) and 3 corpus schemas; ALL valid instances up to 11 (thorough 15 = complete) '
+             'elements and single-fault variants; for EVERY element every path form (own path with/without predicates, absolute/relative, * steps, //name, three prefix spellings) through '
+             'find/findall/iterfind/get_element, and iter_errors/is_valid/decode with path= and max_depth in {0,1,2,3,None}. The governing declaration recorded during a full validation must be '
+             'what the schema path finds; path-restricted results must equal the restriction of the whole-document result; max_depth=k must equal the full result cut at k.',
+        design_ref='DESIGN.md section 2, C20',
+        note='Trusted: mc/gen/docs_c20.py reference instance tree and path walker. Known findings: a path that denotes several declarations is resolved once by name (//v, /root/*/v); '
+             'children of a complex substitution-group member are not reachable by path.'),
+    'C11': dict(
+        technique='exhaustive single-fault / truncation / byte-substitution injection at every position of every seed document; limit sweeps across each limit in subprocesses',
+        text='Model checking by bounded exhaustive fault enumeration: 12 seed documents + 81 corpus files <= 2 kB; EVERY fault of a 40-entry catalogue at every element/attribute/text '
+             'position (pairs: seed slice in quick, all in thorough), EVERY truncation prefix, EVERY single-byte substitution from 6 bytes at every offset; 18 calls per document (eager/lazy '
+             'resource construction, is_valid/iter_errors/lax decode/strict decode x both processors x eager/lazy). Outcome must be a normal return or a library exception; lax calls may raise '
+             'only the XMLResourceError family and only when expat says the input is not well-formed. Limit sweeps: MAX_XML_DEPTH in {default,50,10,2,1} and MAX_XML_ELEMENTS in {default,100,2,1} '
+             'at limit-1/limit/limit+1 (every size for the small limits), eager and lazy, each setting in its own process.',
+        design_ref='DESIGN.md section 2, C11',
+        note='Trusted: stdlib expat as the well-formedness oracle. Known findings: RecursionError below the default depth limit (validation recurses 2-3 frames per level), KeyError from a '
+             'keyref whose key scope element never occurs.'),
+    'C04': dict(
+        technique='exhaustive product of fault-class documents x entry points x validation modes x source kinds; pairwise agreement oracle; console script in subprocesses',
+        text='Model checking by complete enumeration of a finite product: 439 (document, version) pairs (minimal valid and invalid document of every fault class of the sibling properties, '
+             'documents with exactly k errors for k in {0,1,2,255,256,257,511,512}) x schema methods, package functions (schema object / path / URL / location hints), XsdElement methods, '
+             'XmlDocument, and the xmlschema-validate console entry x strict/lax/skip x 11 (thorough 19) source kinds. One verdict per document (known by construction); is_valid, iter_errors, '
+             'validate, strict and lax decode and the exit status must agree; the strict exception must be the first lax error; decoded data must not depend on mode or source.',
+        design_ref='DESIGN.md section 2, C04',
+        note='Trusted: the by-construction verdicts of mc/gen/docs_c04.py (cross-checked once against iter_errors). Known findings: union types (strict raises a different error than the first lax one), '
+             'lazy resources ignore the parent xsi:type for children at the lazy depth.'),
+    'C01': dict(
+        technique='exhaustive enumeration of deterministic content-model trees x all child sequences up to a length bound; regular-language reference (Thompson NFA / DFA) replayed through iter_errors',
+        text='Model checking by bounded exhaustive enumeration: every content-model tree with <= 3 nodes over 8 occurrence ranges, 4 nodes (5 ranges; <= 2 non-default complete in quick, all in '
+             'thorough), 5 nodes with <= 1 non-default (8 ranges), that the Glushkov reference finds deterministic and the library accepts; leaf variants (global refs, substitution heads incl. '
+             'abstract, 4 lax wildcards), named-group references, all-groups (1.0 and 1.1 with occurrence ranges and wildcards) and XSD 1.1 open content (interleave/suffix x 3 wildcards); for each '
+             'model EVERY child sequence over its own symbols plus an undeclared name up to a per-model length bound. Validity must equal membership in the regular language and a rejected '
+             'sequence must carry an error on the parent element.',
+        design_ref='DESIGN.md section 2, C01',
+        note='Trusted: mc/ref/regex.py and mc/ref/glushkov.py. Open content is judged only where the existential and the model-first reading agree. Known findings are listed per (model, wrong words).'),
 }
+
+READY = {'C02', 'C03', 'C07', 'C09', 'C10', 'C12', 'C13', 'C14', 'C15', 'C16', 'C17', 'C18', 'C19'}   # set of property ids to register; None = all of CHECKS
 
 PENDING_REASON = 'check not built yet in this session; the design (DESIGN.md section 2) applies bounded exhaustive exploration to it'
 
@@ -157,7 +207,7 @@ PENDING_REASON = 'check not built yet in this session; the design (DESIGN.md sec
 def main():
     checks = []
     for pid in ALL:
-        if pid not in CHECKS:
+        if pid not in CHECKS or (READY is not None and pid not in READY):
             continue
         c = CHECKS[pid]
         checks.append({
@@ -171,7 +221,7 @@ def main():
             'level_note': c['note'],
             'technique': c['technique'],
         })
-    na = [{'property_id': p, 'reason': NA.get(p, PENDING_REASON)} for p in ALL if p not in CHECKS]
+    na = [{'property_id': p, 'reason': NA.get(p, PENDING_REASON)} for p in ALL if p not in CHECKS or (READY is not None and p not in READY)]
     man = {
         'version': 1,
         'setup_cmd': 'cd /verif && chmod +x check && ./check --help > /dev/null',
